@@ -38,7 +38,12 @@ type serviceCodec struct {
 
 // Encode response.
 func (c serviceCodec) Encode(result interface{}, context *ServiceContext) ([]byte, error) {
-	encoder := io.GetEncoder().Simple(c.Simple)
+	simple := c.Simple
+	if !simple && context.HasResponseHeaders() {
+		// the peer decodes in the mode this header announces: it must be the mode used
+		simple = context.ResponseHeaders().GetBool("simple")
+	}
+	encoder := io.GetEncoder().Simple(simple)
 	defer io.FreeEncoder(encoder)
 	if c.Simple {
 		context.ResponseHeaders().Set("simple", true)
